@@ -1,6 +1,7 @@
 package main
 
 import (
+	"errors"
 	"context"
 	"crypto/sha256"
 	"encoding/json"
@@ -551,6 +552,46 @@ func runC11(c *mon.Ctx) {
 						c.Failf(fmt.Sprintf("order-dependence:alg%d:new-entry-point:%s", t.StateRes, kind), "v%s: ResolveConflictsNew returns a different state under presentation %q\n base: %v\n now:  %v", ver, kind, short(idsOf(base)), short(idsOf(got)))
 						return
 					}
+				}
+				// a fault: the caller's sender lookup answers with an error (or with nobody) for one of the room's users,
+				// every time it is asked about that user. Whatever the resolver makes of such events, it makes the same
+				// of them in every presentation of the input.
+				victims := []string{gen.Pick(pr, simUsers)}
+				if t.StateRes == 1 {
+					victims = simUsers // the version-1 resolver checks candidates one by one against state it keeps between them
+				}
+				for _, mode := range []string{"error", "nobody"} {
+				for _, victim := range victims {
+					faulty := func(roomID spec.RoomID, senderID spec.SenderID) (*spec.UserID, error) {
+						if string(senderID) == victim {
+							if mode == "error" {
+								return nil, errors.New("scripted fault")
+							}
+							return nil, nil
+						}
+						return userIDForSender(roomID, senderID)
+					}
+					var fbase string
+					var ferr error
+					site, msg, pan := mon.Guard(func() {
+						var rr []gmsl.PDU
+						rr, ferr = gmsl.ResolveConflictsNew(ver, sc.stateSets, authList, faulty, noRej)
+						fbase = resultKey(rr)
+					})
+					if pan {
+						c.Failf("stateres:panic:sender-lookup-fails:"+site, "v%s: resolving with a sender lookup that answers %s for %s panics: %s", ver, mode, victim, msg)
+						continue
+					}
+					for _, kind := range []string{"repeat", "set-order", "events-in-sets", "auth-order", "all"} {
+						sets, auth := variant(kind)
+						got, err := gmsl.ResolveConflictsNew(ver, sets, auth, faulty, noRej)
+						c.Count("presentation|sender-lookup-fails")
+						if (err == nil) != (ferr == nil) || resultKey(got) != fbase {
+							c.Failf(fmt.Sprintf("order-dependence:alg%d:sender-lookup-fails:%s", t.StateRes, kind), "v%s: with a sender lookup that answers %s for %s, ResolveConflictsNew returns a different state under presentation %q", ver, mode, victim, kind)
+							break
+						}
+					}
+				}
 				}
 				// a history: the same events resolved with an auth chain that has holes in it (a server that has not fetched
 				// everything yet), then once more with the full chain - the answer to the full question does not depend on
